@@ -331,7 +331,14 @@ class Core:
         val = v if not isinstance(v, list) else arr(v, self.dtype)
         if not ok:
             self.lib_must_raise(lambda: self.a.__setitem__(key, val), "a fancy write with an out-of-range pair")
+        key_before = [np.array(x, copy=True) for x in key if isinstance(x, np.ndarray)]
         self.a[key] = val
+        # a write addresses cells through the caller's index arrays; they are arguments, not scratch space (the caller
+        # uses them again - on this array after an append, on another array - and negative entries must still mean
+        # "from the end")
+        for x, b in zip([x for x in key if isinstance(x, np.ndarray)], key_before):
+            require(np.array_equal(x, b), "a fancy write modified the caller's index array", before=b.tolist(),
+                    after=x.tolist())
         for k, (i, j) in enumerate(pairs):
             self.m[i][j] = v if not isinstance(v, list) else val[k]
 
